@@ -188,6 +188,10 @@ def run(pid, spec, tier):
             import bounded_standin
             import typing_standin
             out.append(typing_standin.run(pid, bounded_standin.build_replay))
+        elif name == "bounded_native_quota":
+            import bounded_standin
+            import native_standin
+            out.append(native_standin.run_quota(pid, bounded_standin.build_replay))
         elif name == "bounded_native_corpus":
             import bounded_standin
             import native_standin
